@@ -37,14 +37,24 @@ var selBuilders = []selBuilder{
 	{"in-array", "find", selFind(func(g *Gen, N string, l func() *Node) *Node {
 		return ObjN(N, ObjN(g.pick("$in", "$nin", "$all"), ArrN(l(), l())), "plain1", ObjN("$in", ArrN(l())))
 	})},
-	{"elemMatch", "find", selFind(func(g *Gen, N string, l func() *Node) *Node { return ObjN(N, ObjN("$elemMatch", ObjN("sub", l(), "n", ObjN("$gt", l())))) })},
+	{"elemMatch", "find", selFind(func(g *Gen, N string, l func() *Node) *Node {
+		return ObjN(N, ObjN("$elemMatch", ObjN("sub", l(), "n", ObjN("$gt", l()))))
+	})},
 	{"not", "find", selFind(func(g *Gen, N string, l func() *Node) *Node { return ObjN(N, ObjN("$not", ObjN("$gte", l()))) })},
 	{"array-valued", "find", selFind(func(g *Gen, N string, l func() *Node) *Node { return ObjN(N, ArrN(l(), l()), "plain1", ArrN(l())) })},
-	{"array-of-subdocs", "find", selFind(func(g *Gen, N string, l func() *Node) *Node { return ObjN(N, ArrN(ObjN("sub", l()), ObjN("sub", ObjN("deep", l())))) })},
-	{"nested-arrays", "find", selFind(func(g *Gen, N string, l func() *Node) *Node { return ObjN(N, ArrN(l(), ArrN(l(), l()), ArrN(ArrN(l()))), "plain1", ArrN(ArrN(l()))) })},
-	{"subdoc", "find", selFind(func(g *Gen, N string, l func() *Node) *Node { return ObjN(N, ObjN("sub", ObjN("deep", l())), "plain1", ObjN("sub", l())) })},
+	{"array-of-subdocs", "find", selFind(func(g *Gen, N string, l func() *Node) *Node {
+		return ObjN(N, ArrN(ObjN("sub", l()), ObjN("sub", ObjN("deep", l()))))
+	})},
+	{"nested-arrays", "find", selFind(func(g *Gen, N string, l func() *Node) *Node {
+		return ObjN(N, ArrN(l(), ArrN(l(), l()), ArrN(ArrN(l()))), "plain1", ArrN(ArrN(l())))
+	})},
+	{"subdoc", "find", selFind(func(g *Gen, N string, l func() *Node) *Node {
+		return ObjN(N, ObjN("sub", ObjN("deep", l())), "plain1", ObjN("sub", l()))
+	})},
 	{"subdoc-array", "find", selFind(func(g *Gen, N string, l func() *Node) *Node { return ObjN(N, ObjN("sub", ArrN(l(), ObjN("k", l())))) })},
-	{"name-deeper", "find", selFind(func(g *Gen, N string, l func() *Node) *Node { return ObjN("outer", ObjN(N, l(), "plain2", l()), "plain1", l()) })},
+	{"name-deeper", "find", selFind(func(g *Gen, N string, l func() *Node) *Node {
+		return ObjN("outer", ObjN(N, l(), "plain2", l()), "plain1", l())
+	})},
 	{"and-or", "find", selFind(func(g *Gen, N string, l func() *Node) *Node {
 		return ObjN(g.pick("$and", "$or", "$nor"), ArrN(ObjN(N, l()), ObjN("plain1", l()), ObjN("$or", ArrN(ObjN(N, ObjN("$in", ArrN(l()))), ObjN("plain2", ObjN("$in", ArrN(l())))))))
 	})},
@@ -57,14 +67,24 @@ var selBuilders = []selBuilder{
 	{"fam", "findAndModify", func(g *Gen, N string, l func() *Node, coll, db string) *Node {
 		return cmdTail(ObjN("findAndModify", collN(coll), "query", ObjN(N, l()), "update", ObjN("$set", ObjN(N, l(), "plain1", l()))), db)
 	}},
-	{"upd-set", "update", selUpd(func(g *Gen, N string, l func() *Node) *Node { return ObjN(g.pick("$set", "$setOnInsert", "$min", "$max"), ObjN(N, l(), "plain1", l())) })},
-	{"upd-push", "update", selUpd(func(g *Gen, N string, l func() *Node) *Node { return ObjN(g.pick("$push", "$addToSet"), ObjN(N, l(), "plain1", l())) })},
+	{"upd-set", "update", selUpd(func(g *Gen, N string, l func() *Node) *Node {
+		return ObjN(g.pick("$set", "$setOnInsert", "$min", "$max"), ObjN(N, l(), "plain1", l()))
+	})},
+	{"upd-push", "update", selUpd(func(g *Gen, N string, l func() *Node) *Node {
+		return ObjN(g.pick("$push", "$addToSet"), ObjN(N, l(), "plain1", l()))
+	})},
 	{"upd-each", "update", selUpd(func(g *Gen, N string, l func() *Node) *Node {
 		return ObjN(g.pick("$push", "$addToSet"), ObjN(N, ObjN("$each", ArrN(l(), l())), "plain1", ObjN("$each", ArrN(l()))))
 	})},
-	{"upd-pull-in", "update", selUpd(func(g *Gen, N string, l func() *Node) *Node { return ObjN("$pull", ObjN(N, ObjN("$in", ArrN(l(), l())), "plain1", ObjN("$in", ArrN(l())))) })},
-	{"upd-pullAll", "update", selUpd(func(g *Gen, N string, l func() *Node) *Node { return ObjN("$pullAll", ObjN(N, ArrN(l(), l()), "plain1", ArrN(l()))) })},
-	{"upd-replacement", "update", selUpd(func(g *Gen, N string, l func() *Node) *Node { return ObjN(N, l(), "plain1", l(), "nest", ObjN(N, ArrN(l()))) })},
+	{"upd-pull-in", "update", selUpd(func(g *Gen, N string, l func() *Node) *Node {
+		return ObjN("$pull", ObjN(N, ObjN("$in", ArrN(l(), l())), "plain1", ObjN("$in", ArrN(l()))))
+	})},
+	{"upd-pullAll", "update", selUpd(func(g *Gen, N string, l func() *Node) *Node {
+		return ObjN("$pullAll", ObjN(N, ArrN(l(), l()), "plain1", ArrN(l())))
+	})},
+	{"upd-replacement", "update", selUpd(func(g *Gen, N string, l func() *Node) *Node {
+		return ObjN(N, l(), "plain1", l(), "nest", ObjN(N, ArrN(l())))
+	})},
 	{"delete", "delete", func(g *Gen, N string, l func() *Node, coll, db string) *Node {
 		return cmdTail(ObjN("delete", collN(coll), "deletes", ArrN(ObjN("q", ObjN(N, l(), "plain1", ObjN("$in", ArrN(l()))), "limit", FreeI(0)), ObjN("q", ObjN(N, ObjN("$in", ArrN(l(), l()))), "limit", FreeI(1))), "ordered", keep(BoolN(true))), db)
 	}},
